@@ -72,7 +72,7 @@ def expected_facet(S, kind, cond, d, f, fun, comps, time, rows, w):
     uv = u(*pts, S.params)
     gpts = (grid[..., 0:1], grid[..., 1:]) if time else (grid,)
     fv = to_at(fun(*gpts))
-    if fv.axes and all(not isinstance(a, int) or a != 1 for a in fv.axes[-1:]) and len(fv.axes) == len(uv.axes) - 1:
+    if fv.axes and all(not isinstance(a, int) for a in fv.axes) and len(fv.axes) == len(uv.axes) - 1:
         fv = fv[..., None]        # a grid-shaped value without component axis is one value per grid point
     if cond == 'dirichlet':
         res = jnp_stack([uv[..., c] for c in comps], -1) - fv
